@@ -293,6 +293,62 @@ fn flat_case(struct_index: u64, use_index: u64) -> Case {
     }
 }
 
+/// Displacement probes: a head whose size differs between the packings (a 3-vector: 12 against 16 bytes for 4 byte scalars),
+/// two members of a probe type behind it, and a tail that re-aligns both layouts (8 or 16 byte alignment) - so that only the
+/// probe members sit at different offsets while every other field and the total size agree. The probe type runs over the 4 byte
+/// scalars, an enum, half / half2, and those again one struct level down and as array elements.
+pub const PROBE_CASES: u64 = 3 * 14 * 4;
+
+fn probe_case(index: u64, use_index: u64) -> Case {
+    let head = [Scalar::Float, Scalar::Int, Scalar::Uint][(index % 3) as usize];
+    let probe = (index / 3) % 14;
+    let tail = (index / 42) % 4;
+    let mut decls = Decls::default();
+    let leaf = |k: u64, decls: &mut Decls| -> Base {
+        match k {
+            0 => Base::Num(Scalar::Int, 1),
+            1 => Base::Num(Scalar::Uint, 1),
+            2 => Base::Num(Scalar::Float, 1),
+            3 => {
+                if decls.enums.is_empty() {
+                    decls.enums.push("E0".to_string());
+                }
+                Base::Enum("E0".to_string())
+            }
+            4 => Base::Num(Scalar::Half, 2),
+            _ => Base::Num(Scalar::Half, 1),
+        }
+    };
+    let mut members = vec![Member { name: "head".into(), base: Base::Num(head, 3), dims: vec![] }];
+    if probe < 6 {
+        let b = leaf(probe, &mut decls);
+        members.push(Member { name: "p0".into(), base: b.clone(), dims: vec![] });
+        members.push(Member { name: "p1".into(), base: b, dims: vec![] });
+    } else if probe < 10 {
+        // one struct level down
+        let b = leaf(probe - 6, &mut decls);
+        decls.structs.push(StructDef { name: "N".into(), members: vec![Member { name: "x".into(), base: b.clone(), dims: vec![] }, Member { name: "y".into(), base: b, dims: vec![] }] });
+        members.push(Member { name: "n".into(), base: Base::Struct("N".into()), dims: vec![] });
+    } else {
+        // as array elements
+        let b = leaf(probe - 10, &mut decls);
+        members.push(Member { name: "p".into(), base: b, dims: vec![2] });
+    }
+    match tail {
+        0 => members.push(Member { name: "tail".into(), base: Base::Num(Scalar::Double, 1), dims: vec![] }),
+        1 => members.push(Member { name: "tail".into(), base: Base::Num(Scalar::Double, 2), dims: vec![] }),
+        2 => members.push(Member { name: "tail".into(), base: Base::Num(Scalar::Float, 4), dims: vec![] }),
+        _ => {}
+    }
+    decls.structs.push(StructDef { name: "S".into(), members });
+    Case {
+        kind: "displacement-probe".into(),
+        decls,
+        uses: vec![(USE_KINDS[(use_index % 8) as usize], "S".into())],
+        target: Tgt::Dx,
+    }
+}
+
 struct Gen<'a> {
     rng: &'a mut Rng,
     decls: Decls,
@@ -915,7 +971,13 @@ fn run(ctx: &Ctx) -> Report {
     let flat_cases: u64 = if thorough { FLAT_STRUCTS * 8 } else { (0..FLAT_STRUCTS).filter(|i| i % 10 == slice).count() as u64 };
     let random_cases: u64 = ctx.tier.pick(60_000, 1_000_000);
     let seed = ctx.seed;
-    let mut report = crate::par::run_cases(ctx, flat_cases + random_cases, |index, report| {
+    let mut report = crate::par::run_cases(ctx, PROBE_CASES + flat_cases + random_cases, |index, report| {
+        if index < PROBE_CASES {
+            let case = probe_case(index, index / 3 + seed);
+            examine(&case, None, Some(index), report);
+            return;
+        }
+        let index = index - PROBE_CASES;
         if index < flat_cases {
             let case = if thorough {
                 flat_case(index / 8, index % 8)
